@@ -25,7 +25,7 @@ N_CASES = {"quick": 3000, "thorough": 80000}
 
 
 def _plan(rng, tag, ws_kind=False):
-    respond = rng.choice(["now", "now", "late", "never", "raise", "late_after_disconnect"])
+    respond = rng.choice(["now", "now", "late", "never", "raise", "late_after_disconnect", "split_late"])
     read = rng.choice(["eager", "eager", "none"])
     return {"respond": respond, "read": read, "tag": tag}
 
@@ -42,6 +42,9 @@ def _http_script(p):
         sc += [["send", start], ["send", body]]
     elif r == "late":
         sc += [["wait", "late"], ["send", start], ["send", body]]
+    elif r == "split_late":
+        # the response has begun when the connection goes; its rest comes afterwards
+        sc += [["send", start], ["wait", "late"], ["send", body]]
     elif r == "late_after_disconnect":
         sc += [["recv_until_disconnect"], ["note", "saw-disconnect"], ["send", start], ["send", body]]
     elif r == "raise":
@@ -68,7 +71,7 @@ def _ws_script(p):
         if r == "late_after_disconnect":
             sc += [["recv_until_disconnect"], ["note", "saw-disconnect"], ["send", {"type": "websocket.send", "text": "late"}],
                    ["send", {"type": "websocket.close"}]]
-    elif r == "late":
+    elif r in ("late", "split_late"):
         sc += [["send", {"type": "websocket.accept"}], ["wait", "late"], ["send", {"type": "websocket.send", "text": "late"}]]
     elif r == "raise":
         sc += [["send", {"type": "websocket.accept"}], ["wait", "late"], ["raise", "Exception"]]
@@ -94,7 +97,7 @@ def gen(rng, tier):
             for k in range(n):
                 tag = i * 10 + k
                 p = _plan(rng, tag)
-                if shape != "h1.single" and k == 0 and p["respond"] in ("never", "late_after_disconnect"):
+                if shape != "h1.single" and k == 0 and p["respond"] in ("never", "late_after_disconnect", "split_late"):
                     p["respond"] = "now"
                 plans.append(p)
                 by_tag[str(tag)] = _http_script(p)
@@ -161,14 +164,24 @@ def gen(rng, tier):
                                                    ws.message_frames(ws.OP_TEXT, b"m3"))])
                 reactor = {"kind": "h2", "credit": "auto"}
         closure = rng.choice(["eof", "reset", "fail_write", "idle_expiry", "terminate", "ws_client_close" if shape.startswith("ws") else "eof"]
-                             + (["client_goaway", "client_goaway"] if shape == "h2.three" else []))
+                             + (["client_goaway", "client_goaway"] if shape == "h2.three" else [])
+                             + (["bad_chunk"] if shape == "h1.single" else []))
+        if closure == "bad_chunk":
+            # the server itself closes (an upload that stops being HTTP: after its 400, or without one when the response has begun) while
+            # the application may still be about to send
+            tag = plans[0]["tag"]
+            plans[0]["respond"] = rng.choice(["split_late", "split_late", "late", "now"])
+            plans[0]["read"] = rng.choice(["none", "none", "eager"])
+            by_tag[str(tag)] = _http_script(plans[0])
+            client = [["feed", b"POST /t%d HTTP/1.1\r\nHost: h\r\ntransfer-encoding: chunked\r\n\r\n3\r\nabc\r\n" % tag]]
         if shape == "h2.three" and rng.random() < 0.3:
             config["keep_alive_max_requests"] = rng.choice([1, 2])  # the server itself sends GOAWAY while applications are still running
-        pos = rng.randint(0, len(client))
+        pos = rng.randint(0, len(client)) if closure != "bad_chunk" else 1
         step = {"eof": [["eof"]], "reset": [["reset"]], "fail_write": [["fail_write_at", rng.choice([1, 2, 3])]],
                 "idle_expiry": [["advance", 2.5 * T]], "terminate": [["terminate"]],
                 "ws_client_close": [["feed", ws.close_frame(rng.choice([1000, 1001, None]))]] if shape == "ws.h11" else [["eof"]],
-                "client_goaway": [["feed", FrameBuilder().goaway(last=5, code=0)], ["eof"]]}[closure]
+                "client_goaway": [["feed", FrameBuilder().goaway(last=5, code=0)], ["eof"]],
+                "bad_chunk": [["feed", b"zz\r\n"]]}[closure]
         client = client[:pos] + [["mark", "closure"]] + step + client[pos:]
         client += [["settle"], ["trigger", "late"], ["settle"], ["advance", 2.5 * T], ["eof"], ["settle"]]
         case = {
@@ -235,10 +248,15 @@ def check(case, obs, tally):
                 out.append({"clause": "disconnect-once", "sig": "C03.message-after-disconnect/%s" % proto,
                             "detail": "instance %d received %r after its disconnect" % (inst, kinds[kinds.index(next(k for k in kinds if k in DISC)) + 1:])})
         # ---- sends after closure must be accepted silently ----------------------------------
+        # "after closure": after the instance has been handed its disconnect, or - whether or not it has looked - after the server itself
+        # has closed the connection's transport
+        srv_closed = [e[0] for e in obs.trace.events if e[2] == "net" and e[3] == "srv_close"]
         saw = None
         for ev in obs.app_events(inst=inst):
+            if saw is None and srv_closed and ev[0] > srv_closed[0]:
+                saw = srv_closed[0]
             if ev[3] == "recv" and ev[4]["msg"].get("type") in DISC:
-                saw = ev[0]
+                saw = ev[0] if saw is None else saw
             elif ev[3] == "send!" and saw is not None and ev[0] > saw:
                 tally.clause("send-after-close")
                 # the failing message: the preceding send? event
@@ -277,6 +295,8 @@ def _when(t, p):
         return "response-after-disconnect"
     if r == "late":
         return "response-after-closure"
+    if r == "split_late":
+        return "response-across-closure"
     if r == "raise":
         return "app-raises"
     if r == "never":
